@@ -42,4 +42,9 @@ def f12 (a b : Text) : Bool :=
     | none => false
     | some back => key back != key a
 
+/-- F13 (C19): `as_pct_str()` hands the component to `pct_str::PctStr`, whose `chars`, `len`,
+`decode` and `== str` unwrap a lenient UTF-8 decoder: they panic when the decoded octets are
+not UTF-8 and accept overlong forms.  The class: the decoded octets are not strict UTF-8. -/
+def f13 (x : Text) : Bool := (utf8Decode? (pctDecode x)).isNone
+
 end IrefVerif.Findings
